@@ -354,13 +354,26 @@ def _is_wordnet(ctx, func, name):
     for p in func.param_nodes():
         if p.arg == name and p.annotation is not None and norm(p.annotation).strip("'\"").split('.')[-1] == 'Wordnet':
             return True
+    if '.<locals>.' in func.qualname and name not in func.params:
+        outer = func.module.funcs.get(func.qualname.rsplit('.<locals>.', 1)[0])
+        if outer is not None:
+            return _is_wordnet(ctx, outer, name)
     return False
 
 
 def kwargs_keys(func, name):
     """constant keys a local dict `name` can hold (display + constant-key stores)."""
     keys = {}
-    for n in walk_no_nested(func.node):
+    nodes = list(walk_no_nested(func.node))
+    if not any(isinstance(n, ast.Name) and n.id == name and isinstance(n.ctx, ast.Store) for n in nodes) and name not in func.params:
+        # a closure reading a dict of the enclosing function
+        q = func.qualname
+        while '.<locals>.' in q:
+            q = q.rsplit('.<locals>.', 1)[0]
+            outer = func.module.funcs.get(q)
+            if outer is not None:
+                return kwargs_keys(outer, name)
+    for n in nodes:
         if isinstance(n, (ast.Assign, ast.AnnAssign)):
             tg = n.targets if isinstance(n, ast.Assign) else [n.target]
             for t in tg:
